@@ -160,6 +160,13 @@ def wrapO (kd : Kind) (s : St) : OCall → St × Obs
   | .assignList c ys => (s.put c (natInsertRange kd.multi [] ys), .done)
   | .compare => (s, wCmp s.a s.b)
   | .contents c => (s, .items (s.get c))
+  -- set.h:261-292 / map.h:276-313: `reverse_iterator(end())` … `reverse_iterator(begin())`, `crbegin` = `rbegin`
+  | .rcontents c => (s, .items (s.get c).reverse)
+  -- set.h:124-137 / map.h:144-157: `set(alloc | lessFunc, alloc)` then `insert(first, last)` -> `pvInsertRange`
+  | .constructRange c ys => (s.put c (wInsertMany kd [] ys true), .done)
+  -- set.h:139-149 `mTreeSet(values, …)`; map.h:159-169 -> `map_base(values.begin(), values.end(), …)` -> `pvInsertRange` with
+  -- pointers to `value_type` (map.h:785 the native range insert)
+  | .constructList c ys => (s.put c (natInsertRange kd.multi [] ys), .done)
 
 def runWrapOFrom (kd : Kind) : St → List OCall → List Obs
   | _, [] => []
@@ -210,6 +217,11 @@ def wrapV (s : VSt) : VCall → VSt × Obs
   | .assignMove c | .constructMove c => ((s.put c (s.get c.other)).put c.other [], .done)   -- `pvCreateArray`, equal allocators
   | .compare => (s, wCmpV s.a s.b)
   | .contents c => (s, .vals (s.get c))
+  | .rcontents c => (s, .vals (s.get c).reverse)                                         -- :215-252 `reverse_iterator(end())` …
+  | .constructN c n v => (s.put c (List.replicate n v), .done)                           -- :87 / :92 `mArray(count[, value], …)`
+  | .constructRange c ys => (s.put c ys, .done)                                          -- :99 / :104 `mArray(first, last | values, …)`
+  | .reserve _ _ => (s, .done)                                                           -- :305 `mArray.Reserve(count)`
+  | .shrinkToFit _ => (s, .done)                                                         -- :310 `mArray.Shrink()`
 
 def runWrapVFrom : VSt → List VCall → List Obs
   | _, [] => []
@@ -332,6 +344,14 @@ def wrapUCore (s : St) : UCall → St × Obs
   | .assignList c ys => (s.put c (ys.foldl (fun acc y => (hInsert acc y).1) []), .done)
   | .compare => (s, .eqne (usetEq s.a s.b) (!(usetEq s.a s.b)))                     -- unordered_set.h:667, unordered_map.h:813
   | .contents c => (s, .items (StdSpec.canon (s.get c)))
+  -- unordered_set.h:136-188 / unordered_map.h:170-222: a new table, then `insert(first, last)` / `HashSet(values, …)`
+  | .constructRange c ys | .constructList c ys => (s.put c (ys.foldl (fun acc y => (hInsert acc y).1) []), .done)
+  -- :388 / :430 `Reserve(count)`, :380 / :422 `rehash` = `reserve(CalcCapacity(2^k, …))`: the native `Reserve` keeps the items (C01)
+  | .reserve _ _ | .rehash _ _ => (s, .done)
+  -- :332 / :374 `max_load_factor(z)`: a NEW table with the new traits, `Reserve(size())`, `Insert(begin(), end())` of all
+  -- items in traversal order, then move-assigned (the early `return` for an unchanged factor leaves the table as it is: the
+  -- oracle covers both)
+  | .maxLoadFactor c => (s.put c ((s.get c).foldl (fun acc y => (hInsert acc y).1) []), .done)
 
 /-- one call, then both tables are re-arranged by the oracle (step `n`) -/
 def wrapU (ρ : Nat → List Item → List Item) (n : Nat) (s : St) (c : UCall) : St × Obs :=
@@ -421,6 +441,8 @@ def wrapMCore (s : MSt) : MCall → MSt × Obs
   | .assignList c ys => (s.put c (ys.foldl mmAdd []), .done)
   | .compare => (s, .eqne (mmEq s.a s.b) (!(mmEq s.a s.b)))                    -- unordered_multimap.h:627
   | .contents c => (s, .items (StdSpec.canon (MM.pairs (s.get c))))
+  -- unordered_multimap.h:150-203: a new table, then `insert(first, last)` -> `pvInsertRange` (`Add` per element)
+  | .constructRange c ys | .constructList c ys => (s.put c (ys.foldl mmAdd []), .done)
 
 /-- an oracle for the multimap may only re-arrange the key entries (the table's bucket order) -/
 def wrapM (ρ : Nat → MM → MM) (n : Nat) (s : MSt) (c : MCall) : MSt × Obs :=
